@@ -44,11 +44,27 @@ theorem check_nosource (p : String) (ev : Event) :
   simp only [Loc.atLocation, funcAtLocationNoSource]
   by_cases h : fileOf ev.path = p <;> simp [h]
 
-theorem matches_kind (l : Loc) (ev : Event) (h : l.matches ev = true) : ev.kind = "line" ∨ ev.kind = "call" := by
+/-- a nameless method location on a file with source says "here" at ANY event of the file whose line is not before
+    the end of the source block of the event's frame — whatever the kind of the event -/
+theorem matches_nameless (p : String) (bl : List (String × Int × Int)) (ev : Event) :
+    (Loc.nameless p bl).matches ev = true ↔
+      fileOf ev.path = p ∧ ∃ b ∈ bl.find? (fun b => b.1 == ev.func), b.2.1 ≤ ev.line ∧ ev.line ≥ b.2.1 + b.2.2 := by
+  unfold Loc.matches Loc.check
+  rw [locationFromEvent_eq]
+  simp only [Loc.atLocation, funcAtLocationNameless]
+  by_cases h : fileOf ev.path = p
+  · cases hf : bl.find? (fun b => b.1 == ev.func) with
+    | none => simp [h]
+    | some b => obtain ⟨n, s0, k⟩ := b; simp [h]
+  · simp [h]
+
+theorem matches_kind (l : Loc) (hn : l.named = true) (ev : Event) (h : l.matches ev = true) :
+    ev.kind = "line" ∨ ev.kind = "call" := by
   cases l with
   | line p n => exact Or.inl ((matches_line p n ev).mp h).1
   | func p f => exact Or.inr ((matches_func p f ev).mp h).1
   | nosource p => rw [matches_nosource] at h; cases h
+  | nameless p bl => simp [Loc.named] at hn
 
 /-! ### `__actions_for_location` -/
 
@@ -273,12 +289,29 @@ theorem mem_selTp (m : Loc → Bool) (ts : List Tp) (a : Action) :
   · rintro ⟨t, ⟨h1, h2⟩, h3⟩; exact ⟨t, h1, h2, h3⟩
   · rintro ⟨t, h1, h2, h3⟩; exact ⟨t, ⟨h1, h2⟩, h3⟩
 
-theorem kindsOK_actionsFor (cfg : List Trig) : KindsOK (actionsFor cfg) := by
+theorem kindsOK_actionsFor (cfg : List Trig) (hn : AllNamed cfg) : KindsOK (actionsFor cfg) := by
   intro ev h
   rw [actionsFor_eq] at h
   obtain ⟨a, ha⟩ := List.exists_mem_of_ne_nil _ h
-  obtain ⟨t, _, hm, _⟩ := (mem_sel _ cfg a).mp ha
-  exact matches_kind t.loc ev hm
+  obtain ⟨t, ht, hm, _⟩ := (mem_sel _ cfg a).mp ha
+  exact matches_kind t.loc (hn t ht) ev hm
+
+theorem settle_named (l : Loc) (ev : Event) (h : l.named = true) : l.settle ev = l := by
+  cases l <;> simp [Loc.settle, Loc.named] at h ⊢
+
+theorem settleCfg_named (cfg : List Trig) (ev : Event) (h : AllNamed cfg) : settleCfg cfg ev = cfg := by
+  unfold settleCfg
+  have : ∀ t ∈ cfg, ({ t with loc := t.loc.settle ev } : Trig) = t := by
+    intro t ht
+    rw [settle_named t.loc ev (h t ht)]
+  rw [List.map_congr_left this, List.map_id']
+
+theorem runS_named (cfg : List Trig) (slot : Option (List Ctx)) (evs : List Event) (h : AllNamed cfg) :
+    runS cfg slot evs = (run cfg slot evs, cfg) := by
+  induction evs generalizing slot with
+  | nil => rfl
+  | cons ev evs ih =>
+    simp only [runS, settleCfg_named cfg ev h, ih, run, runWith, traceCall]
 
 /-- the early returns of `__trace_call` (no tracepoints / no action at the location) lose nothing -/
 theorem firedAt_cfg (cfg : List Trig) (ev : Event) :
